@@ -158,6 +158,24 @@ def _fail(key, detail, keys):
 
 
 def run_case(case, seed):
+    """library exceptions become keyed findings that keep the non-trivial tags collected so far"""
+    import traceback
+    keys = []
+    try:
+        return _run_case(case, seed, keys)
+    except Exception as e:
+        tb = traceback.format_exc()
+        site = [ln.strip() for ln in tb.splitlines() if "wannierberri/" in ln]
+        where = site[-1].split("wannierberri/")[-1].split(",")[0].strip('"') if site else "harness"
+        return {"ok": False, "key": f"exception:{type(e).__name__}:{where}", "detail": f"{case}: {type(e).__name__}: {e}",
+                "traceback": tb[-2000:], "nontrivial": keys or [("raised", canon_case(case))]}
+
+
+def canon_case(case):
+    return (case["sys"], case["variant"], tuple(case["N"]), str(case["ibands"]))
+
+
+def _run_case(case, seed, keys):
     import wannierberri as wb
     from wannierberri.calculators import TabulatorAll
     from wannierberri.result import tabresult as TR
@@ -196,7 +214,6 @@ def run_case(case, seed):
         facts = [(d, f) for (d, f) in facts if pg.symmetric_grid(np.array(d)) and pg.symmetric_grid(np.array(f))]
     libs = tuple(case["libs"])
     visible = sum(1 for n in N if n >= 2) >= 2 or max(N) >= 3
-    keys = []
     spy = []
     orig_to_grid = TR.TABresult.to_grid
 
